@@ -41,6 +41,7 @@ import (
 	"fmt"
 	"math/rand"
 	"os"
+	"os/exec"
 	"runtime"
 	"sort"
 	"strconv"
@@ -516,9 +517,27 @@ type raceRound struct {
 	lagMul int
 }
 
-func runRace(m map[string]string) string {
+// runRace runs the case in a CHILD process (this binary again, `race-child <input>`): the goroutines of a race case spin, and a
+// Go runtime whose Ps are all kept busy by spinners serves the timers of other goroutines late (seen twice: a time.Sleep(2.1 s) of a
+// recording gun in a concurrent engine case took 10.4 s while the heartbeat of that case kept ticking) - the timing-sensitive
+// cases of the driver must not share a runtime with them.
+func runRace(input string) string {
 	raceMu.Lock()
 	defer raceMu.Unlock()
+	exe, err := os.Executable()
+	if err != nil {
+		return "BADINPUT cannot find the driver binary"
+	}
+	ctx, cancel := context.WithTimeout(context.Background(), 60*time.Second)
+	defer cancel()
+	out, err := exec.CommandContext(ctx, exe, "race-child", input).Output()
+	if err != nil {
+		return "BADINPUT race child failed: " + drv.Clean(err.Error())
+	}
+	return strings.TrimSpace(string(out))
+}
+
+func runRaceChild(m map[string]string) string {
 	inst, _ := strconv.Atoi(m["inst"])
 	rounds, _ := strconv.Atoi(m["rounds"])
 	per, _ := strconv.Atoi(m["per"])
@@ -641,7 +660,7 @@ func run(input string) string {
 	case "proc":
 		return runProc(m)
 	case "race":
-		return runRace(m)
+		return runRace(input)
 	}
 	return "BADINPUT"
 }
@@ -1322,6 +1341,10 @@ func waiterSleptLong(seq string) bool {
 }
 
 func main() {
+	if len(os.Args) == 3 && os.Args[1] == "race-child" {
+		fmt.Println(runRaceChild(drv.KV(os.Args[2])))
+		return
+	}
 	workers := 16
 	for i, a := range os.Args {
 		if (a == "-tier" || a == "--tier") && i+1 < len(os.Args) && os.Args[i+1] == "thorough" {
